@@ -60,6 +60,18 @@ pub fn run(c: &Case, par: Option<&Rec>, rep: &mut Report) {
         (None, None) => {}
         _ => rep.violation(c, "C09/output-only-on-one-side/with-code-transform", &format!("serial: {:?} / parallel: {:?}", ser.str("verdict_ct"), par.str("verdict_ct")), &[]),
     }
+    // the same with ids from an on_instr_loc callback that gives neighbouring instructions one id
+    match (ser.get("out_ctl"), par.get("out_ctl")) {
+        (Some(a), Some(b)) => {
+            rep.count("outputs-with-offset-map-and-shared-location-ids-compared", 1);
+            if a != b {
+                let pos = a.iter().zip(b.iter()).position(|(x, y)| x != y).unwrap_or(a.len().min(b.len()));
+                rep.violation(c, "C09/serial-vs-parallel-bytes-differ/with-code-transform-and-on_instr_loc", &format!("preserve_code_transform on, location ids from a non-injective on_instr_loc callback, offset map embedded by a custom section: lengths {} / {}, first difference at {}", a.len(), b.len(), pos), &[("serial.wasm", a), ("parallel.wasm", b)]);
+            }
+        }
+        (None, None) => {}
+        _ => rep.violation(c, "C09/output-only-on-one-side/with-code-transform-and-on_instr_loc", &format!("serial: {:?} / parallel: {:?}", ser.str("verdict_ctl"), par.str("verdict_ctl")), &[]),
+    }
     // GC, then every local function edited: iter_local_mut (serial build) vs the public par_iter_local_mut
     let (es, ep) = (ser.str_or("verdict_ed", "-"), par.str_or("verdict_ed", "-"));
     for v in [es, ep] {
